@@ -271,6 +271,27 @@ Proof.
 Qed.
 Print Assumptions C15_np24_shanks_coincide.
 
+(* 14. (records finding F-C15-c) "Nearby" is REFUTED on the 4-shank header: with channel 0 dead and all
+   others good, channel 48 - on another shank, 250 um away (squared physical distance 62500 > 5201) - is one
+   of the channels channel 0 is repaired from, because the header's x is local to each shank. *)
+Theorem C15_nearby_refuted_np24 :
+  exists th labels (i j : nat),
+    C08.Model.trace_header C08.Model.NP24 4 = Some th /\
+    length labels = 384%nat /\ is_bad (nth i labels 0) = true /\
+    In j (geo_sources (C08.Model.g_x th) (C08.Model.g_y th) labels i) /\
+    nth i (C08.Model.g_shank th) 0 <> nth j (C08.Model.g_shank th) 0 /\
+    R2 < phys_d2 (C08.Model.g_x th) (C08.Model.g_y th) (C08.Model.g_shank th) i j.
+Proof.
+  pose proof np24_far_source_true as H. unfold np24_far_source in H.
+  destruct (C08.Model.trace_header C08.Model.NP24 4) as [th|]; [|discriminate].
+  exists th, (1 :: repeat 0 383), 0%nat, 48%nat.
+  apply andb_true_iff in H. destruct H as [H H3]. apply andb_true_iff in H. destruct H as [H1 H2].
+  split; [reflexivity|]. split; [reflexivity|]. split; [reflexivity|]. split.
+  - apply existsb_exists in H1. destruct H1 as [k [Hk E]]. apply Nat.eqb_eq in E. now subst k.
+  - split; [apply negb_true_iff, Z.eqb_neq in H2; exact H2 | now apply Z.ltb_lt].
+Qed.
+Print Assumptions C15_nearby_refuted_np24.
+
 (* 13. The median entry exists: for a window of 2h+1 entries `median` returns an entry of the window with at
    most h entries strictly below and at most h strictly above it (the k-th order statistic exists in every
    finite list of a total order); with theorem 8 this determines its value. *)
@@ -344,3 +365,15 @@ Example C15_ex_geo :
   geo_sources [43; 11; 59; 27; 43; 11; 59; 27] [20; 20; 40; 40; 60; 60; 80; 80] [0; 0; 2; 1; 2; 0; 3; 0] 3
   = [0%nat; 1%nat; 5%nat; 6%nat; 7%nat].
 Proof. vm_compute. reflexivity. Qed.
+
+(* the hypothesis of theorems 10 and 11 is satisfiable: a step weight over Qc *)
+Local Definition wf_step (a b : Z) : Qc := if a * a + b * b <=? R2 then dyadic 1 0 else dyadic 0 0.
+Example C15_ex_weight_by_distance : weight_by_distance QcOps wf_step (dyadic 1 1).
+Proof.
+  unfold weight_by_distance, wf_step, fle. cbn [f0 fltb QcOps]. split; [|split].
+  - intros a b. destruct (a * a + b * b <=? R2); vm_compute; reflexivity.
+  - vm_compute. reflexivity.
+  - intros a b _ _. destruct (a * a + b * b <=? R2) eqn:E.
+    + apply Z.leb_le in E. split; [vm_compute; discriminate | lia].
+    + apply Z.leb_gt in E. split; [intros _; exact E | intros _; vm_compute; reflexivity].
+Qed.
